@@ -69,7 +69,7 @@ def gen_row(rng, row, single, rich=True, maxlen=None, italic_bias=0.0):
     if italic_bias and rng.random() < italic_bias:
         kind = 0.0
     spec = {'row': row, 'col': 0, 'to': 0, 'pac_italic': False, 'pac_underline': rng.random() < 0.1,
-            'pac_color': None}
+            'pac_color': None, 'lead_pad': rng.random() < 0.25}
     if rich and kind < 0.12:
         spec['pac_italic'] = True
         spec['to'] = rng.choice([0, 0, 1, 2, 3])
@@ -170,6 +170,10 @@ def encode_row(spec, doubled, with_pac=True):
     def flush():
         nonlocal pending
         if pending:
+            if len(pending) % 2 and spec.get('lead_pad'):
+                # the filler byte may also come first: 80xx instead of xx80 (a decoder ignores it anywhere)
+                ws.append('80%02x' % E.parity(E.BASIC_CODE[pending[0]]))
+                pending = pending[1:]
             ws.extend(E.chars_to_words(pending))
             pending = ''
 
@@ -233,7 +237,12 @@ def encode_popon(prog, start_frame=30, min_gap=6):
 
 
 def scc_doc(lines):
-    return E.scc_text([(tc, ws) for tc, ws, _ in lines])
+    """SCC text of the lines; a third of the documents use CRLF line ends (chosen from the content, so the
+    same program always gives the same document)."""
+    doc = E.scc_text([(tc, ws) for tc, ws, _ in lines])
+    if lines and (len(lines) + lines[0][2] + len(lines[0][1])) % 3 == 0:
+        doc = doc.replace('\n', '\r\n')
+    return doc
 
 
 # ------------------------------------------------------------------------------- roll-up / paint-on
@@ -281,7 +290,7 @@ def items_display(items):
     return ''.join(cells)
 
 
-def gen_stream(rng, modes=None, rich=False, lengths=None, tagged=True):
+def gen_stream(rng, modes=None, rich=False, lengths=None, tagged=True, italics=False):
     """A stream of roll-up / paint-on (and optionally a final pop-on) segments.
     -> {'doubled', 'drop', 'start_frame', 'segments': [{'mode': 'roll'|'paint'|'pop', ...}]}"""
     doubled = rng.random() < 0.5
@@ -309,8 +318,11 @@ def gen_stream(rng, modes=None, rich=False, lengths=None, tagged=True):
             for _ in range(nrows):
                 col = rng.choice([0, 0, 4, 8])
                 t = row_text(32 - col if not lengths else 40)
-                seg['rows'].append({'col': col, 'items': text_items(rng, t, rich, single),
-                                    'gap': rng.choice([0, 1, 5, 20, 60])})
+                row = {'col': col, 'items': text_items(rng, t, rich, single), 'gap': rng.choice([0, 1, 5, 20, 60])}
+                if italics and rng.random() < 0.5:
+                    row['italic'] = True
+                    row['col'] = 0
+                seg['rows'].append(row)
             st['segments'].append(seg)
         elif m == 'paint':
             seg = {'mode': 'paint', 'lines': []}
@@ -361,8 +373,8 @@ def encode_stream(st):
         frame += len(ws) + 1
 
     def rowspec(row, r):
-        return {'row': row, 'col': r['col'], 'to': 0, 'pac_italic': False, 'pac_underline': False,
-                'pac_color': None, 'items': r['items']}
+        return {'row': row, 'col': 0 if r.get('italic') else r['col'], 'to': 0, 'pac_italic': bool(r.get('italic')),
+                'pac_underline': False, 'pac_color': None, 'items': r['items'], 'lead_pad': r.get('lead_pad', False)}
 
     for seg in st['segments']:
         if seg['mode'] == 'roll':
